@@ -427,6 +427,15 @@ func globalRef(name string, num int) string {
 
 func (p *Printer) gname(x any, name string) string { return globalRef(name, p.gnums[x]) }
 
+// gdef spells the name of a global value at its definition: an unnamed one may be written with the empty
+// quoted name `@""` (LLVM numbers it by position like any unnamed definition).
+func (p *Printer) gdef(x any, name string) string {
+	if name == "" && noise.EmptyQuoted && p.gnums[x]%2 == 1 {
+		return `@""`
+	}
+	return p.gname(x, name)
+}
+
 // NumberGlobals computes LLVM's numbering of unnamed globals: in textual order over
 // global variables, aliases, ifuncs and functions.
 func (m *Module) NumberGlobals() map[any]int {
@@ -610,10 +619,10 @@ func (p *Printer) Module(m *Module) string {
 			g := m.AttrGroups[t.Idx]
 			if noise.SplitAttrGroups && len(g.Attrs) >= 2 {
 				k := len(g.Attrs) / 2
-				p.w("attributes #%d = { %s }\n", g.ID, strings.Join(g.Attrs[:k+1], " "))
-				p.w("attributes #%d = { %s }\n", g.ID, strings.Join(g.Attrs[k:], " "))
+				p.w("attributes #%s = { %s }\n", idNum(g.ID), strings.Join(g.Attrs[:k+1], " "))
+				p.w("attributes #%s = { %s }\n", idNum(g.ID), strings.Join(g.Attrs[k:], " "))
 			} else {
-				p.w("attributes #%d = { %s }\n", g.ID, strings.Join(g.Attrs, " "))
+				p.w("attributes #%s = { %s }\n", idNum(g.ID), strings.Join(g.Attrs, " "))
 			}
 		case TopNamedMD:
 			nm := m.NamedMDs[t.Idx]
@@ -624,7 +633,7 @@ func (p *Printer) Module(m *Module) string {
 			p.w("!%s = !{%s}\n", mdName(nm.Name), strings.Join(fs, ", "))
 		case TopMD:
 			n := m.MDs[t.Idx]
-			p.w("!%d = %s\n", n.ID, p.mdNodeBody(n))
+			p.w("!%s = %s\n", idNum(n.ID), p.mdNodeBody(n))
 		}
 	}
 	for _, u := range m.UseListOrders {
@@ -697,7 +706,7 @@ func (p *Printer) global(g *Global) {
 		ext = "externally_initialized"
 	}
 	head := join(g.Linkage, g.Preemption, g.Visibility, g.DLL, tlsStr(g.TLS), g.UnnamedAddr, asStr(g.AddrSpace), ext, kw, g.T.String())
-	p.w("%s = %s", p.gname(g, g.Name), head)
+	p.w("%s = %s", p.gdef(g, g.Name), head)
 	if g.Init != nil {
 		p.w(" %s", p.constBody(g.Init))
 	}
@@ -737,7 +746,7 @@ func (p *Printer) alias(a *Alias) {
 			aliasee = strings.TrimPrefix(aliasee, a.Aliasee.T.String()+" ")
 		}
 	}
-	p.w("%s = %s %s, %s", p.gname(a, a.Name), head, a.T, aliasee)
+	p.w("%s = %s %s, %s", p.gdef(a, a.Name), head, a.T, aliasee)
 	if a.Partition != "" {
 		p.w(", partition %s", QuoteStr(a.Partition))
 	}
@@ -778,10 +787,10 @@ func (p *Printer) fn(f *Fun) {
 		ps = append(ps, "...")
 	}
 	head := join(f.Linkage, f.Preemption, f.Visibility, f.DLL, f.CC, strings.Join(f.RetAttrs, " "), f.Ret.String())
-	p.w("%s %s(%s)", head, p.gname(f, f.Name), strings.Join(ps, ", "))
+	p.w("%s %s(%s)", head, p.gdef(f, f.Name), strings.Join(ps, ", "))
 	tail := join(f.UnnamedAddr, asStr(f.AddrSpace), strings.Join(f.FnAttrs, " "))
 	if f.AttrGroup != nil {
-		tail = join(tail, fmt.Sprintf("#%d", f.AttrGroup.ID))
+		tail = join(tail, "#"+idNum(f.AttrGroup.ID))
 	}
 	if tail != "" {
 		p.w(" %s", tail)
@@ -1114,6 +1123,8 @@ func (p *Printer) inst(i *Inst) string {
 	if i.HasValue() {
 		if i.Name != "" {
 			lhs = "%" + QuoteName(i.Name) + " = "
+		} else if noise.EmptyQuoted && p.nums[i]%2 == 1 {
+			lhs = `%"" = ` // the empty name: an unnamed value, numbered by position
 		} else if p.Explicit {
 			lhs = "%" + idNum(p.nums[i]) + " = "
 		}
@@ -1294,7 +1305,7 @@ func (p *Printer) instBody(i *Inst) string {
 func idxList(ix []uint64) string {
 	var s []string
 	for _, i := range ix {
-		s = append(s, fmt.Sprint(i))
+		s = append(s, idNum(int(i))) // redundant leading zeros under Noise.LeadingZeros: still decimal (`010` is ten)
 	}
 	return strings.Join(s, ", ")
 }
@@ -1313,7 +1324,7 @@ func (p *Printer) mdField(f *MDField, asValue bool) string {
 		if p.inNode > 0 && p.inNode < 4 && !asValue && !f.Node.Distinct && noise.InlineMD[f.Node.Kind] && f.Node.Kind != "{}" {
 			return p.mdNodeBody(f.Node)
 		}
-		return fmt.Sprintf("!%d", f.Node.ID)
+		return "!" + idNum(f.Node.ID)
 	case MDInline:
 		return p.mdNodeBody(f.Node)
 	case MDInt:
